@@ -6,7 +6,7 @@
    functional definition), StandardExamples (6.10.3.5 verbatim), <>Finished under
    weak fairness.  Sensitivity control: with HideFix = FALSE (a function-like
    expansion forgets its own name) TLC must find the non-terminating behaviour.
-2. Generate -> replay: every finished behaviour of the families F1..F9 is one
+2. Generate -> replay: every finished behaviour of the families F1..F10 is one
    input; `chibicc -E` of the tree under test must print exactly the expected
    pp-token spellings (harness tokenizer, validated against Lexer.tla by C19 and
    here on a sample); a per-process timeout decides termination.  Inputs whose
@@ -14,6 +14,10 @@
    a constraint violation / undefined paste / unterminated invocation are "diag":
    the compiler must answer with output or a diagnostic, never a crash or hang.
    gcc -E -P is the tie-break oracle (BUILDER_GUIDE 1.4).
+3. Directive layout (tla/pp/Layout.tla): comments and line splices at every token boundary of
+   every kind of directive line; TLC checks that translation phases 2-3 give back the plain
+   spelling's logical lines, every text is replayed in a process of its own.
+4. Trace validation of hook H3 events against MacroTrace.tla.
 """
 import glob, json, os, re, subprocess, threading
 import vt, ppcase, pptok
@@ -23,7 +27,7 @@ _LOCK = threading.Lock()
 
 # family -> (number of cases, quick stride, thorough stride); strides are primes that do not divide the radices
 FAMS = {"F1": (140544, 127, 1), "F2": (44376, 53, 1), "F3": (6615, 11, 1), "F4": (12433, 7, 1), "F5": (21, 1, 1), "F6": (26, 1, 1),
-        "F7": (36980, 97, 1), "F8": (3200, 3, 1), "F9": (392, 1, 1)}
+        "F7": (36980, 97, 1), "F8": (3200, 3, 1), "F9": (392, 1, 1), "F10": (110, 1, 1)}
 
 EXTRAS = [   # closed hand-written list: expansion next to directives, shape of the remaining predefined dynamic macros
     ("emptyexp-then-directive", "#define E\nx E\n#define Y 1\nY\n", ["x", "1"]),
@@ -138,8 +142,9 @@ def judge(ctx, chib, gcc, c, res, prop="C09"):
 
 
 def replay_cases(ctx, chib, gcc, cases, prop="C09"):
-    ok = [c for c in cases if c["class"] == "ok" and c["fam"] != "F6"]
-    single = [c for c in cases if c["class"] == "ok" and c["fam"] == "F6"]
+    # one process per case: F6 (__COUNTER__ is global) and PS (nothing may precede the sequence under test)
+    ok = [c for c in cases if c["class"] == "ok" and c["fam"] not in ("F6", "PS")]
+    single = [c for c in cases if c["class"] == "ok" and c["fam"] in ("F6", "PS")]
     diag = [c for c in cases if c["class"] == "diag"]
     diag = vt.subsample(diag, ctx.seed, 5 if ctx.quick else 1)      # thorough: every one (the quick samples are subsets)
     res = chib.run_cases(ok)
@@ -171,6 +176,58 @@ def run_extras(ctx, chib):
         if not good:
             ctx.report("shape:%s" % name, "%s expands to %s" % (name, toks), case=dict(kind="shape", name=name, got=toks))
     ctx.cov["traces_validated_against_impl"] += len(EXTRAS) + len(SHAPES)
+
+
+def layout_generate(ctx, workers):
+    """Layout.tla: every (directive scenario, token boundary, comment/splice decoration); TLC checks that
+    phases 2-3 give back the plain spelling's logical lines and emits the texts"""
+    out = os.path.join(ctx.scratch, "layout.ndjson")
+    res = tlc_full(ctx, "Layout", "Layout_gen.cfg", env=dict(OUT=out), workers=workers, heap="4g")
+    if not res.ok:
+        p = ctx.replay_dir("tlc-Layout")
+        open(p + "/counterexample.txt", "w").write(res.trace_text())
+        json.dump(dict(kind="tlc", area="pp", module="Layout", cfg=open(os.path.join(vt.TLA, "pp", "Layout_gen.cfg")).read()),
+                  open(p + "/case.json", "w"))
+        ctx.report("tlc:Layout:%s" % res.violated, "Layout.tla violates %s" % res.violated, p)
+    ctl = tlc_full(ctx, "Layout", "Layout_ctl.cfg", workers=1, count=False, heap="4g")
+    if ctl.ok:
+        raise Infra("sensitivity control failed: TLC accepts physical lines as logical lines (Layout_ctl.cfg)")
+    rows = vt.read_ndjson(out)
+    if len(rows) < 500:
+        raise Infra("Layout.tla emitted only %d texts" % len(rows))
+    return sorted(rows, key=lambda r: r["id"])
+
+
+def _lex_no_pragma(out):
+    return pptok.lex("\n".join(l for l in out.splitlines() if not l.lstrip().startswith("#pragma")))
+
+
+def layout_replay(ctx, chib, gcc, rows):
+    """each decorated directive text through `chibicc -E`, one process per text; expected = the tokens of the
+    plain spelling (fixed per scenario in Layout.tla)"""
+    open(os.path.join(chib.dir, "lay.h"), "w").write("inc_ok\n")
+    open(os.path.join(gcc.dir, "lay.h"), "w").write("inc_ok\n")
+
+    def one(r):
+        return chib.run_text(r["text"], "L_%d" % r["id"])
+    for r, (rc, out, err, f) in zip(rows, vt.pmap(one, rows)):
+        ctx.note_case("L:%d" % r["id"])
+        if rc == "timeout":
+            rc, out, err, f = chib.run_text(r["text"], "L_%d" % r["id"], timeout=4 * chib.timeout)
+        toks = pptok.lex(out) if rc == 0 else None
+        if toks == r["want"]:
+            continue
+        g = gcc.run_text(r["text"], "L_%d" % r["id"])
+        if g[0] != 0 or _lex_no_pragma(g[1]) != r["want"]:
+            ctx.oracle_disagreements += 1
+            continue
+        kind = "timeout" if rc == "timeout" else "rejected" if rc != 0 else "tokens"
+        ctx.report("layout:%s:scen%d:deco%d" % (kind, r["scen"], r["deco"]),
+                   "directive layout L:%d: expected `%s` got %s   input: %r" % (
+                       r["id"], " ".join(r["want"]), ("`%s`" % " ".join(toks)) if toks is not None else ppcase.errmsg(err), r["text"]),
+                   case=dict(kind="layout", row=r))
+    ctx.cov["traces_validated_against_impl"] += len(rows)
+    ctx.cov["layout_cases"] = len(rows)
 
 
 def model_jobs(ctx):
@@ -262,7 +319,10 @@ def run(ctx):
     chib, gcc = tools(ctx, tree)
     ctx.phase("build done")
     jobs = []
-    for fam, (n, qs, ts) in FAMS.items():
+    merged = ("F5", "F9", "F10")          # always complete: one TLC run (pseudo-family FS) enumerates all three
+    for fam, (n, qs, ts) in list(FAMS.items()) + [("FS", (0, 1, 1))]:
+        if fam in merged:
+            continue
         stride = qs if q else ts
         cfg = ctx.cfg("pp", "Macro_gen.cfg", Family='"%s"' % fam, Stride=stride, Seed=ctx.seed % stride,
                       ArgOrder='"ltr"' if fam == "F6" else '"any"')      # __COUNTER__: one order only
@@ -273,26 +333,34 @@ def run(ctx):
     def gen(j):
         return run_gen(ctx, j[0], j[1], j[2], workers=min(cap or 99, 2 if q else big.get(j[0], 2)))
     mjobs = model_jobs(ctx)
+    lay = {}
+
+    def layout(_):
+        lay["rows"] = layout_generate(ctx, min(cap or 99, 2))
+        return None
 
     def mc(j):
         run_model_job(ctx, j, min(cap or 99, 2))
         return None
-    results = vt.pmap(lambda t: t[0](t[1]), [(gen, j) for j in jobs] + [(mc, j) for j in mjobs],
+    results = vt.pmap(lambda t: t[0](t[1]), [(gen, j) for j in jobs] + [(mc, j) for j in mjobs] + [(layout, None)],
                       workers=(2 if cap else 8 if q else 4))
     ctx.phase("tlc done")
     total = 0
     for (fam, cfg, out), cases in zip(jobs, results[:len(jobs)]):
-        ncls = {}
         for c in cases:
-            ncls[c["class"]] = ncls.get(c["class"], 0) + 1
-        ctx.cov.setdefault("families", {})[fam] = dict(cases=len(cases), **ncls)
-        total += replay_cases(ctx, chib, gcc, cases)
+            d = ctx.cov.setdefault("families", {}).setdefault(c["fam"], dict(cases=0))
+            d["cases"] += 1
+            d[c["class"]] = d.get(c["class"], 0) + 1
+        for f in sorted(set(c["fam"] for c in cases)):      # case markers carry the id only: one family per batch
+            total += replay_cases(ctx, chib, gcc, [c for c in cases if c["fam"] == f])
         oks = [c for c in cases if c["class"] == "ok"]
         if oks:
             c = oks[len(oks) // 2]
             ctx.sample(dict(family=fam, id=c["id"], input=ppcase.render_case(c)[0], expected=" ".join(c["outs"][0]), flags=c["flags"]))
         ctx.phase("replayed " + fam)
     run_extras(ctx, chib)
+    layout_replay(ctx, chib, gcc, lay["rows"])
+    ctx.phase("layout done")
     trace_validation(ctx, tree, [c for cs in results[:len(jobs)] for c in cs])
     ctx.phase("traces done")
     # the tokenizer that judged: spot-validation against Lexer.tla (the whole domain is validated by C19)
@@ -323,6 +391,8 @@ def replay(ctx, path):
         r = chib.run_one(case)
         ctx.note_case("replay")
         judge(ctx, chib, gcc, case, r)
+    elif c.get("kind") == "layout":
+        layout_replay(ctx, chib, gcc, [c["row"]])
     elif c.get("kind") == "trace":
         print("re-validate with: TRACE=%s/trace.ndjson tlc -workers 1 -config MacroTrace.cfg MacroTrace.tla (in tla/pp)" % path)
     elif c.get("kind") == "extra":
